@@ -178,17 +178,15 @@ fn controlled(ms: usize, mf: usize, rounds: &[RoundIn], pre: &[(usize, usize, bo
         v
     };
     let blocked = seen_all.iter().map(|s| match *s.lock().unwrap() { Some((rd, cd)) => format!("{}{}", u8::from(!rd), u8::from(!cd)), None => "--".to_string() }).collect::<Vec<_>>().join(",");
-    let mut order = vec![];
-    let mut obs = vec![];
-    for (_, what, at) in &recs {
+    // every snapshot, in reader (target) index order, as the set of whole-rounds states it equals
+    let mut obs: Vec<String> = vec![String::from("-"); pre.len()];
+    for (_, what, _at) in &recs {
         if let Some(rest) = what.strip_prefix('R') {
             let (id, snap) = rest.split_once(':').unwrap();
             let cls = classify(snap);
             if cls.is_empty() { fails.push(format!("C20:snapshot_of_reader_{id}_is_not_a_whole-rounds_state")); }
-            order.push(format!("R{id}@{at}"));
-            obs.push(if cls.is_empty() { "torn".to_string() } else { cls.join("|") });
-        } else {
-            order.push(format!("{what}@{at}"));
+            let i: usize = id.parse().unwrap();
+            obs[i] = if cls.is_empty() { "torn".to_string() } else { cls.join("|") };
         }
     }
     for s in &seen_all {
@@ -199,12 +197,9 @@ fn controlled(ms: usize, mf: usize, rounds: &[RoundIn], pre: &[(usize, usize, bo
     }
     let fin = classify(&final_state);
     if fin.is_empty() { fails.push("C20:final_state_is_not_a_whole-rounds_state".to_string()); }
-    let output = format!("blocked={} order={} obs={} final={}", if blocked.is_empty() { "-".to_string() } else { blocked },
-        if order.is_empty() { "-".to_string() } else { order.join(",") }, if obs.is_empty() { "-".to_string() } else { obs.join(";") },
-        if fin.is_empty() { "torn".to_string() } else { fin.join("|") });
-    // the observed completion order is part of the recorded input (the model replays the same schedule)
-    let order_in = if order.is_empty() { "-".to_string() } else { order.iter().map(|o| o.split('@').next().unwrap().to_string() + "@" + o.split('@').nth(1).unwrap()).collect::<Vec<_>>().join(",") };
-    let input = format!("c20 {ms} {mf} {} {} {} {}", counts.iter().map(usize::to_string).collect::<Vec<_>>().join(","), if pre_s.is_empty() { "-".to_string() } else { pre_s }, order_in, render_rounds(rounds));
+    let output = format!("blocked={} obs={} final={}", if blocked.is_empty() { "-".to_string() } else { blocked },
+        if obs.is_empty() { "-".to_string() } else { obs.join(";") }, if fin.is_empty() { "torn".to_string() } else { fin.join("|") });
+    let input = format!("c20 {ms} {mf} {} {} {}", counts.iter().map(usize::to_string).collect::<Vec<_>>().join(","), if pre_s.is_empty() { "-".to_string() } else { pre_s }, render_rounds(rounds));
     out.case(&input, &output, &crate::oracles::verdict(&fails));
 }
 
@@ -249,7 +244,7 @@ pub fn run(args: &Args, out: &mut Out) {
             let t: Vec<&str> = l.split(' ').collect();
             if t[0] == "c20" {
                 let pre: Vec<(usize, usize, bool)> = if t[4] == "-" { vec![] } else { t[4].split(',').map(|x| { let p: Vec<&str> = x.split('.').collect(); (p[0].parse().unwrap(), p[1].parse().unwrap(), p[2] == "1") }).collect() };
-                controlled(t[1].parse().unwrap(), t[2].parse().unwrap(), &parse_rounds(t[6]), &pre, out);
+                controlled(t[1].parse().unwrap(), t[2].parse().unwrap(), &parse_rounds(t[5]), &pre, out);
             } else if t[0] == "c20stress" {
                 stress(t[1].parse().unwrap(), t[2].parse().unwrap(), &parse_rounds(t[4]), t[3].parse().unwrap(), out);
             }
